@@ -1,7 +1,7 @@
 From Coq Require Import List Arith Bool String.
 From Wire Require Import Sets Acyclic Solve Names Front Exec Model Emit Cli CopyAst ModelThms NamesThms Bridge ProcessWF Perm PermModel EmitThms Regroup RegroupModel SolveBound SolveBoundModel.
 From Wire Require Show ShowBound FrontRules InjBody.
-From Wire Require Paths Layout Once OnceModel ExecThms Rename Imports.
+From Wire Require ChainRefuted Paths Layout Once OnceModel ExecThms Rename Imports.
 Import ListNotations.
 
 (* The property theorems.  This file contains nothing but statements closed by [exact lemma] and the
@@ -764,3 +764,22 @@ Theorem C07_cycles_detected_total : forall tyorder pm, NoDup (keys pm) ->
   (verify tyorder pm = [] <-> ~ exists u, path (succ_of pm) u u).
 Proof. exact verify_acyclic_iff_total. Qed.
 Print Assumptions C07_cycles_detected_total.
+
+(* ------------------------------------------------------------------ recorded findings, as refutations *)
+(* C10's order independence does not extend to bindings, in the model as in the code: a binding chain is accepted in
+   one order of the two wire.Bind calls and refused in the other (known finding
+   bind-chain:acceptance-depends-on-argument-order) *)
+Theorem C10_binding_order_refuted :
+  exists bs bs', Permutation.Permutation bs bs' /\
+    ChainRefuted.accepted (analyze [1; 2; 4] (ChainRefuted.set_in_order bs) [] 2 false false) = true /\
+    ChainRefuted.accepted (analyze [1; 2; 4] (ChainRefuted.set_in_order bs') [] 2 false false) = false.
+Proof. exact ChainRefuted.C10_binding_order_refuted. Qed.
+Print Assumptions C10_binding_order_refuted.
+
+(* ... and, listed directly in wire.Build, the binding the chain goes through is reported unused (known finding
+   bind-chain:contributing-binding-reported-unused) *)
+Theorem C08_chain_binding_reported_unused_refuted :
+  analyze [1; 2; 4] (RSet 0 [] [ChainRefuted.pC] [] [] [] [ChainRefuted.bBC; ChainRefuted.bAB]) [] 2 false false
+  = RErr StSolve [DUnusedBind 1].
+Proof. exact ChainRefuted.C08_chain_binding_reported_unused. Qed.
+Print Assumptions C08_chain_binding_reported_unused_refuted.
